@@ -19,12 +19,8 @@ Definition bad (r : res unit) : bool :=
 Definition verdict (r : res unit) (key : string) : string :=
   if bad r then out3 (obs r) "safe" key else out3 (obs r) "-" "-".
 
-Definition ndp_key (b : slice) : string :=
-  match known_C08_ndp_zero b with
-  | ZPanic => "ndp-zero-length-option-panic"
-  | ZLoop => "ndp-zero-length-option-loop"
-  | ZNone => "-"
-  end.
+(* NDP options: no defect class left after the #12 repair *)
+Definition ndp_key (b : slice) : string := "-".
 
 (* fuel given to the models: comfortably above the proved bounds *)
 Definition fuel_of (b : slice) : nat := (cap b + 8)%nat.
@@ -63,18 +59,9 @@ Definition msg_of_toks (st rs sq an ns ar recs : string) : option dmsg :=
 
 Definition dns_fuel (m : dmsg) : nat := (2 * List.length (m_recs m) + 16)%nat.
 
-Definition mdns_key (m : dmsg) : string :=
-  match known_C08_mdns m with
-  | MNone => "-"
-  | MOutsideAnswers => "mdns-skipanswer-outside-answer-section"
-  | MSkipFailed => "mdns-skipanswer-error-ignored"
-  end.
-
-Definition nbns_key (r : res unit) (valid : bool) (m : dmsg) : string :=
-  match r, known_C08_nbns valid m with
-  | Fuel, NNotSkipped => "nbns-answer-not-skipped"
-  | _, _ => "-"
-  end.
+(* mDNS / NBNS loops: no defect class left after the #19 / #20 repairs *)
+Definition mdns_key (m : dmsg) : string := "-".
+Definition nbns_key (r : res unit) (valid : bool) (m : dmsg) : string := "-".
 
 Definition dispatch_dns (kind : string) (args : list string) : string :=
   if String.eqb kind "mdns" then
@@ -140,8 +127,7 @@ Definition dispatch_misc (kind : string) (args : list string) : option string :=
   else if String.eqb kind "ssdpcc" then
     match args with
     | [h] => match bytes_of_tok h with
-             | Some v => Some (verdict (cache_control v)
-                                 (if known_C08_ssdp_cc v then "ssdp-cache-control-max-age-last" else "-"))
+             | Some v => Some (verdict (cache_control v) "-")
              | None => Some BADARGS end
     | _ => Some BADARGS end
   else if String.eqb kind "ssdp" then
@@ -150,7 +136,7 @@ Definition dispatch_misc (kind : string) (args : list string) : option string :=
         match N_of_dec k, bool_of_tok ho, N_of_dec nts, bool_of_tok mn, bytes_of_tok cc, bool_of_tok man, bool_of_tok st with
         | Some k', Some ho', Some nts', Some mn', Some cc', Some man', Some st' =>
             let v := mkSsdp k' ho' nts' mn' cc' man' st' in
-            Some (verdict (process_ssdp v) (if known_C08_ssdp v then "ssdp-cache-control-max-age-last" else "-"))
+            Some (verdict (process_ssdp v) "-")
         | _, _, _, _, _, _, _ => Some BADARGS end
     | _ => Some BADARGS end
   else if String.eqb kind "arp" then
@@ -203,7 +189,7 @@ Definition dispatch (kind : string) (args : list string) : string :=
                     (ndp_key (mkSlice (skipn 24 (arr s)) (len s - 24)))
           else if String.eqb kind "hbh" then
             verdict (hbh_parse (fuel_of s) s)
-                    (if known_C08_hbh_short s then "hopbyhop-no-length-guard" else "-")
+                    "-"
           else BADARGS
       | _, _ => BADARGS
       end
